@@ -416,3 +416,26 @@ Proof.
   intros H W. exists (redraw o ps). unfold override_bytes, wire_bytes.
   rewrite (parse_marshal _ (wf_redraw o ps H W)). rewrite !kv_of_redraw. repeat split; reflexivity.
 Qed.
+
+(** * Every dial derives its own list from the spec's (untouched) list *)
+
+Lemma fill_iscid_fst (scid : list Z) (q : tparam) :
+  fst (if (fst q =? tpInitialSourceConnectionID) && (match snd q with [] => true | _ :: _ => false end)
+       then (fst q, scid) else q) = fst q.
+Proof. destruct ((fst q =? tpInitialSourceConnectionID) && _); reflexivity. Qed.
+
+Lemma dial_list_not_suppressed sup scid ps p :
+  In p (dial_list sup scid ps) -> suppressed sup (fst p) = false.
+Proof.
+  unfold dial_list, fill_iscid, suppress_list. intros H. apply in_map_iff in H as (q & E & I).
+  apply filter_In in I as [_ N]. subst p. rewrite fill_iscid_fst. apply negb_true_iff. exact N.
+Qed.
+
+Lemma dial_list_own_scid sup scid ps :
+  (forall q, In q ps -> fst q = tpInitialSourceConnectionID -> snd q = []) ->
+  forall p, In p (dial_list sup scid ps) -> fst p = tpInitialSourceConnectionID -> snd p = scid.
+Proof.
+  unfold dial_list, fill_iscid, suppress_list. intros E p H F. apply in_map_iff in H as (q & Eq & I).
+  apply filter_In in I as [I _]. subst p. rewrite fill_iscid_fst in F.
+  rewrite F, Z.eqb_refl, (E q I F). reflexivity.
+Qed.
